@@ -64,6 +64,9 @@ type c09Op struct {
 	// deg returns the natural output degree, or -1 if the operands are not admissible.
 	deg  func(d0, d1 int) int
 	call func(ev any, op0 *rlwe.Ciphertext, op1 any, k int, out *rlwe.Ciphertext) error
+	// callNew: the library's own variant of the operation that allocates its output (XxxNew). When present, the
+	// twin sometimes uses it: it is the "distinct, freshly allocated output" of the property in the library's words.
+	callNew func(ev any, op0 *rlwe.Ciphertext, op1 any, k int) (*rlwe.Ciphertext, error)
 	// takesK: the operation takes an integer argument drawn from ks.
 	ks []int
 	// inplace: documented in-place operation on op0 (no separate output).
@@ -373,6 +376,7 @@ func (c09) Run(ctx *core.RunCtx) {
 			t1 = t0
 		}
 		var tout *rlwe.Ciphertext
+		twinNew := false
 		switch {
 		case op.inplace:
 			tout = t0
@@ -392,6 +396,9 @@ func (c09) Run(ctx *core.RunCtx) {
 				lvl = c1.Level()
 			}
 			tout = sc.newCt(nat, lvl)
+			if op.callNew != nil && ch.Chance("twin-by-New-variant", 1, 3) {
+				twinNew = true
+			}
 		}
 		if op.callerSetsMeta {
 			if out != op0 {
@@ -426,7 +433,20 @@ func (c09) Run(ctx *core.RunCtx) {
 		sysAux := c09Aux
 		c09Aux = 0
 		twin := sc.newEval()
-		twinSt := c09Exec(func() error { return op.call(twin, t0, t1, k, tout) })
+		var twinSt c09Status
+		if twinNew {
+			ctx.Count("probe.twin-by-New-variant", 1)
+			twinSt = c09Exec(func() error {
+				r, err := op.callNew(twin, t0, t1, k)
+				if err == nil && r != nil {
+					tout = r
+				}
+				return err
+			})
+			patName += " vs New-variant"
+		} else {
+			twinSt = c09Exec(func() error { return op.call(twin, t0, t1, k, tout) })
+		}
 		twinAux := c09Aux
 		ctx.Event("step %d %s(%s) k=%d %s poison=%d op0(l=%d,d=%d) -> sys %s / twin %s", s, op.name, kindName(op1), k, patName, nPoison, op0.Level(), op0.Degree(), []string{"ok", "error", "panic"}[sysSt.kind], []string{"ok", "error", "panic"}[twinSt.kind])
 		cls := sc.name + "|" + op.name + "(" + kindName(op1) + ")|" + aliasClass(patName)
